@@ -40,6 +40,10 @@ def equate(a: Quantity, b: Quantity) -> None:
     _ratios[a.unit][b.unit] = _div(b.magnitude, a.magnitude)
     _ratios[b.unit][a.unit] = _div(a.magnitude, b.magnitude)
 
+    # paths and plans found (or not found) before this definition are stale now
+    _find_path.cache_clear()
+    _plan_conversion.cache_clear()
+
 
 def translate(scale: Unit, zero: Quantity) -> None:
     """Defines a unit as a scale starting from the given zero point in another
@@ -55,6 +59,10 @@ def translate(scale: Unit, zero: Quantity) -> None:
 
     _offsets[degree][scale] = -offset
     _offsets[scale][degree] = +offset
+
+    # paths and plans found (or not found) before this definition are stale now
+    _find_path.cache_clear()
+    _plan_conversion.cache_clear()
 
 
 class ConversionNotFound(ValueError):
